@@ -486,4 +486,8 @@ def describe_scene(pal, c):
 
 def families(tier, seed):
     pal, fams = make_families(tier, seed)
+    from ..engine import with_array_layouts
+    # points / normals handed over Fortran-ordered or as strided views: the pairing family at one cone angle, one unit setting
+    fams.append(with_array_layouts(fams[0], select=lambda c: c[2] == 15.0 and tuple(c[3]) == (0, 0),
+                                   expect=("pair-within-range", "pair-within-cone", "no-target-used-twice")))
     return fams
